@@ -1,4 +1,148 @@
+// Generators for the wavelet matrix: C04, and the WM parts of C09 / C10.
 use crate::gen::*;
-pub fn c04(_g: &mut Gen) { panic!("harness: generator c04 not built yet"); }
-pub fn c09_wm(_g: &mut Gen) {}
-pub fn c10_wm(_g: &mut Gen) {}
+use crate::gen_bv::call_sequences;
+
+fn vals_str(v: &[u64]) -> String { v.iter().map(|x| x.to_string()).collect::<Vec<_>>().join(" ") }
+
+fn wm_queries(g: &mut Gen, ty: &str, vals: &[u64], samples: usize, lines: &mut Vec<String>) {
+    let n = vals.len() as u64;
+    let maxv = vals.iter().cloned().max().unwrap_or(0);
+    lines.push("wm A len".to_string()); lines.push("wm A width".to_string());
+    let mut values: Vec<u64> = vec![0, 1, maxv, maxv + 1, maxv / 2, maxv.wrapping_mul(2), 1u64 << 40, MAXU];
+    for _ in 0..samples { if !vals.is_empty() { values.push(vals[g.rng.below(n) as usize]); } values.push(g.rng.below(maxv + 2)); }
+    values.sort(); values.dedup();
+    let mut idx: Vec<u64> = vec![0, 1, n.saturating_sub(1), n, n + 1, n / 2];
+    for _ in 0..samples { idx.push(g.rng.below(n + 2)); }
+    idx.sort(); idx.dedup();
+    for i in &idx {
+        if *i < n { lines.push(format!("wm A get {}", i)); }
+        lines.push(format!("wm A invsel {}", i));
+        if vals.len() <= 100 { lines.push(format!("wm A core {} mapdown {} : {}", ty, i, vals_str(vals))); }
+    }
+    for v in &values {
+        lines.push(format!("wm A contains {}", v));
+        for i in idx.iter().take(8) {
+            lines.push(format!("wm A rank {} {}", i, v));
+            lines.push(format!("wm A select {} {}", i, v));
+            lines.push(format!("wm A pred {} {}", i, v));
+            lines.push(format!("wm A succ {} {}", i, v));
+            if vals.len() <= 100 { lines.push(format!("wm A core {} mapdownwith {} {} : {}", ty, i, v, vals_str(vals))); }
+        }
+    }
+    // map up inverts map down on every position
+    for i in idx.iter().filter(|i| **i < n && vals.len() <= 100).take(10) {
+        lines.push(format!("wm A core {} mapdown2 {} {} {} : {}", ty, i, n, vals[*i as usize], vals_str(vals)));
+    }
+    lines.push("wm A items".to_string());
+}
+
+pub fn c04(g: &mut Gen) {
+    // exhaustive: every vector up to length L over widths 1..3, every (index, rank, value) incl. values >= 2^width
+    for width in 1..=3u32 {
+        let sigma = 1u64 << width;
+        let maxlen = match (g.thorough, width) { (true, 1) => 7, (true, 2) => 5, (true, _) => 4, (false, 1) => 5, (false, 2) => 4, (false, _) => 3 };
+        for len in 0..=maxlen {
+            let total = sigma.pow(len as u32);
+            for code in 0..total {
+                let mut c = code; let mut vals: Vec<u64> = Vec::new();
+                for _ in 0..len { vals.push(c % sigma); c /= sigma; }
+                let ty = ["u8", "u16", "u32", "u64", "usize"][(code % 5) as usize];
+                let mut lines = vec![format!("wm A from {} {}", ty, vals_str(&vals))];
+                lines.push("wm A len".to_string()); lines.push("wm A width".to_string());
+                for i in 0..(len as u64 + 2) {
+                    if i < len as u64 { lines.push(format!("wm A get {}", i)); }
+                    lines.push(format!("wm A invsel {}", i));
+                    lines.push(format!("wm A core {} mapdown {} : {}", ty, i, vals_str(&vals)));
+                    for v in 0..(sigma + 1) {
+                        lines.push(format!("wm A rank {} {}", i, v));
+                        lines.push(format!("wm A select {} {}", i, v));
+                        lines.push(format!("wm A pred {} {}", i, v));
+                        lines.push(format!("wm A succ {} {}", i, v));
+                        lines.push(format!("wm A core {} mapdownwith {} {} : {}", ty, i, v, vals_str(&vals)));
+                    }
+                }
+                for v in 0..(sigma + 1) { lines.push(format!("wm A contains {}", v)); lines.push(format!("wm A it value {} : n n n n n n n n", v)); }
+                // map_up(map_down) on every valid position; every index in the value's range maps up
+                let mut sorted = vals.clone(); sorted.sort_by_key(|x| x.reverse_bits());
+                for (pos, v) in sorted.iter().enumerate() { lines.push(format!("wm A core {} mapupwith {} {} : {}", ty, pos, v, vals_str(&vals))); }
+                g.group(lines);
+            }
+        }
+    }
+    // random: skewed / single-symbol / power-of-two-boundary alphabets, widths 1..16 (and wider item types), sparse alphabets
+    let samples = if g.thorough { 12 } else { 4 };
+    let lens: Vec<usize> = if g.thorough { vec![1, 2, 63, 64, 65, 100, 300, 1000, 5000] } else { vec![1, 64, 65, 100, 600] };
+    let widths: Vec<u32> = if g.thorough { vec![1, 2, 3, 5, 8, 9, 12, 14, 16] } else { vec![1, 2, 3, 5, 8, 9, 12, 13] };
+    for width in widths {
+        for len in &lens {
+            // the model rebuilds `first` over the whole alphabet: keep the wide alphabets to a few vectors
+            if width >= 13 && *len != 65 && !(g.thorough && *len == 1000) { continue; }
+            for shape in 0..4 {
+                if !g.thorough && (shape + width as usize + len) % 2 == 0 { continue; }
+                let sigma = 1u64 << width;
+                let vals: Vec<u64> = (0..*len).map(|_| match shape {
+                    0 => g.rng.below(sigma),
+                    1 => sigma - 1,                                              // single symbol at the top of the alphabet
+                    2 => { let r = g.rng.below(100); if r < 80 { 0 } else if r < 95 { sigma / 2 } else { sigma - 1 } },  // skewed
+                    _ => (g.rng.below(4)) * (sigma / 4).max(1) ,                 // sparse alphabet with missing values
+                }).collect();
+                let ty = match width { 1..=8 => *g.rng.pick(&["u8", "u16", "u64"]), 9..=13 => *g.rng.pick(&["u16", "u32", "usize"]), 14..=16 => *g.rng.pick(&["u16", "u32", "usize"]), _ => "u64" };
+                let mut lines = vec![format!("wm A from {} {}", ty, vals_str(&vals))];
+                wm_queries(g, ty, &vals, samples, &mut lines);
+                if *len <= 300 { lines.push("wm A ser".to_string()); }
+                g.group(lines);
+            }
+        }
+    }
+    // wide values in the wide item types
+    for ty in ["u32", "u64", "usize"] {
+        // `first` has one entry per alphabet value up to the maximum, so the alphabet is kept at 2^16
+        let top: u64 = (1u64 << 12) - 1;
+        let vals: Vec<u64> = (0..40).map(|i| match i % 4 { 0 => top, 1 => 0, 2 => top / 3, _ => g.rng.next() & top }).collect();
+        let mut lines = vec![format!("wm A from {} {}", ty, vals_str(&vals))];
+        lines.push("wm A len".to_string()); lines.push("wm A width".to_string()); lines.push("wm A items".to_string());
+        for v in [0u64, top, top / 3, 1] { for i in [0u64, 1, 20, 40, 41] { lines.push(format!("wm A rank {} {}", i, v)); lines.push(format!("wm A select {} {}", i, v)); } lines.push(format!("wm A contains {}", v)); }
+        g.group(lines);
+    }
+}
+
+pub fn c09_wm(g: &mut Gen) {
+    for vals in [vec![], vec![0u64], vec![0, 1], vec![3, 1, 3, 3, 0, 2, 3], (0..200).map(|i| (i * 7) % 13).collect::<Vec<u64>>()] {
+        let n = vals.len() as u64;
+        let maxv = vals.iter().cloned().max().unwrap_or(0);
+        let mut lines = vec![format!("wm A from u64 {}", vals_str(&vals))];
+        for i in boundary_values(n) {
+            lines.push(format!("wm A invsel {}", i));
+            lines.push(format!("wm A core u64 mapdown {} : {}", i, vals_str(&vals)));
+            for v in [0u64, 1, maxv, maxv + 1, 1u64 << 63, MAXU] {
+                lines.push(format!("wm A rank {} {}", i, v));
+                lines.push(format!("wm A select {} {}", i, v));
+                lines.push(format!("wm A pred {} {}", i, v));
+                lines.push(format!("wm A succ {} {}", i, v));
+                lines.push(format!("wm A core u64 mapdownwith {} {} : {}", i, v, vals_str(&vals)));
+                lines.push(format!("wm A core u64 mapupwith {} {} : {}", i, v, vals_str(&vals)));
+                lines.push(format!("wm A it sel {} {} : n n", i, v));
+            }
+        }
+        for v in [0u64, 1, maxv, maxv + 1, MAXU] { lines.push(format!("wm A contains {}", v)); lines.push(format!("wm A it value {} : N{} n", v, MAXU)); }
+        for k in boundary_values(n) { lines.push(format!("wm A it items : N{} l n b", k)); lines.push(format!("wm A it items : n B{} l n b", k)); }
+        let _ = &g;
+        g.group(lines);
+    }
+}
+
+pub fn c10_wm(g: &mut Gen) {
+    let depth = if g.thorough { 4 } else { 3 };
+    for vals in [vec![], vec![2u64], vec![1, 0, 1, 1, 3, 1], vec![5, 5, 5, 5]] {
+        let n = vals.len() as u64;
+        let mut lines = vec![format!("wm A from u8 {}", vals_str(&vals))];
+        for seq in call_sequences(&crate::gen_bv::de_alphabet(n), depth) { lines.push(format!("wm A it items : {}", seq.join(" "))); }
+        let alpha: Vec<String> = vec!["n", "N0", "N1", "N2", "N7"].into_iter().map(|s| s.to_string()).collect();
+        for v in [0u64, 1, 3, 5, 9] {
+            for seq in call_sequences(&alpha, depth) { lines.push(format!("wm A it value {} : {}", v, seq.join(" "))); }
+            for r in 0..(n + 2) { lines.push(format!("wm A it sel {} {} : n n N1 n", r, v)); lines.push(format!("wm A it pred {} {} : n n n", r, v)); lines.push(format!("wm A it succ {} {} : n n n", r, v)); }
+        }
+        lines.push("wm A into_iter".to_string());
+        g.group(lines);
+    }
+}
